@@ -79,12 +79,6 @@ disables automatic rotation for the key.`,
 }
 
 func (b *backend) pathKeysConfigWrite(ctx context.Context, req *logical.Request, d *framework.FieldData) (resp *logical.Response, retErr error) {
-	txRollback, err := logical.StartTxStorage(ctx, req)
-	if err != nil {
-		return nil, err
-	}
-	defer txRollback()
-
 	name := d.Get("name").(string)
 
 	// Check if the policy already exists before we lock everything
@@ -102,6 +96,16 @@ func (b *backend) pathKeysConfigWrite(ctx context.Context, req *logical.Request,
 			logical.ErrInvalidRequest
 	}
 	defer p.Unlock()
+
+	// The storage transaction starts only now, under the lock of the key: a
+	// transaction begun before the lock was granted could predate the commit
+	// of the request that held it, and would then fail at commit after the
+	// cached key had already been changed in memory.
+	txRollback, err := logical.StartTxStorage(ctx, req)
+	if err != nil {
+		return nil, err
+	}
+	defer txRollback()
 
 	var warning string
 
